@@ -292,6 +292,33 @@ pub fn property(tier: Tier) -> Property {
             exhaustive: false,
         }));
     }
+    if crate::config_name() != "explanations" {
+        // e-nodes and classes with more slots than the inline capacities of the library's small collections (8 for slot sets,
+        // 10 for slot maps): parents over two or three 4-6 slot leaves with disjoint names
+        let mut cfg = MixedCfg::for_lang(LangId::Core);
+        cfg.max_ops = tier.pick(7, 10);
+        cfg.hist.namings = crate::tm::Naming::diverse();
+        cfg.hist.gen.alphabet = 16;
+        cfg.hist.gen.max_fv = 16;
+        cfg.hist.gen.max_depth = 2;
+        cfg.rewrite_p = 1;
+        cfg.no_subst_rules = true;
+        cfg.allow_extraction_subst = false;
+        cfg.hist.gen.ops = Some(vec!["g4", "g5", "g6", "h4", "v", "p", "t3", "w", "lam"]);
+        // no recipe that makes a wide class symmetric: two random permutations of 12 points generate a group with millions of
+        // elements, which the library (by design) enumerates when it canonicalises a parent node
+        cfg.hist.weights = [3, 2, 0, 5, 1, 0, 2, 0, 0, 2, 0, 0];
+        stages.push(Box::new(Stage {
+            name: "ops-core-many-slots",
+            source: random(move || mixed_strategy(cfg.clone()), tier.pick(1500, 30_000)),
+            run,
+            panic_is_violation: true,
+            render: |c: &Mixed| c.render(),
+            rule: "as ops-core, over a 16-name alphabet: terms with up to 16 free slots (p / t3 over 4-6 slot leaves with mostly disjoint names), beyond the inline capacities (8, 10) of the library's slot sets and slot maps; unions by the unrelated / renamed-copy (redundancy) / context / cascade recipes only (no symmetric wide classes: the library enumerates a class's whole group); same invariants; not run in the explanations build (proof terms over such nodes take seconds)",
+            case_timeout_s: tier.pick(30, 120),
+            exhaustive: false,
+        }));
+    }
     Property {
         id: "C08", scale: tier.pick(4, 2),
         stages,
